@@ -85,11 +85,13 @@ Pool == <<
   >>
 Sfx(s) == << <<>>, <<0>>, s, <<22, 3, 3, 255, 255>>, <<255, 255, 255, 255, 255, 255, 255, 255, 255>> >>
           \o [n \in 1..12 |-> [j \in 1..n |-> (7 * j) % 256]]      \* every suffix length 1..12
-NSfx == 17
+NSfx == 17 + Len(LongTails)
+SfxParts(s, k) == IF k <= 17 THEN <<Lit(Sfx(s)[k])>> ELSE <<RepPart(171, LongTails[k - 17])>>
 
 N == Len(Pool) * NSfx
 PoolOf(j) == Pool[((j - 1) \div NSfx) + 1]
-BytesOf(j) == LET c == PoolOf(j) IN c.s \o Sfx(c.s)[((j - 1) % NSfx) + 1]
+PartsOf(j) == LET c == PoolOf(j) IN <<Lit(c.s)>> \o SfxParts(c.s, ((j - 1) % NSfx) + 1)
+BytesOf(j) == Flatten(PartsOf(j))
 VARIABLES i, res
 Init == i = Chunk + 1 /\ i <= N /\ res = Apply(PoolOf(i).fn, PoolOf(i).a, BytesOf(i))
 Next == i + NChunks <= N /\ i' = i + NChunks /\ res' = Apply(PoolOf(i').fn, PoolOf(i').a, BytesOf(i'))
@@ -100,5 +102,5 @@ Local == PoolOf(i).good => (Base(i).k = "ok" /\ Base(i).p = Len(PoolOf(i).s) /\ 
 (* ClassStable: on inputs that already contain the declared length the outcome class does not change *)
 ClassStable == res.k = Base(i).k /\ (~PoolOf(i).good => res.k # "ok")
 Pin == IF res.k = "ok" THEN "full" ELSE "novalue"
-EmitCase == LET c == PoolOf(i) IN EmitLine(CaseLine(i, c.fn, c.a, <<Lit(BytesOf(i))>>, res, Pin, [good |-> c.good, sfx |-> (i - 1) % NSfx]))
+EmitCase == LET c == PoolOf(i) IN EmitLine(CaseLine(i, c.fn, c.a, PartsOf(i), res, Pin, [good |-> c.good, sfx |-> (i - 1) % NSfx]))
 =============================================================================
